@@ -28,15 +28,14 @@ theorem inv_reachable {s : State} (h : Reachable s) : Inv s := inv_of_reachable 
 theorem inv_step {s s' : State} {op : Op} {evs : List Event} (hI : Inv s)
     (h : step s op = .ok (s', evs)) : Inv s' := (step_refines hI h).1
 
-/-- A name has at most one owner, the owner is a connected client, it does not also wait in the
-queue, and everybody who waits is connected and waits once. -/
+/-- The owner of a name (the head of its queue - one by construction; that no second connected
+client *believes* it owns the name is `at_most_one_believer` below) is a connected client and
+does not also wait in the queue; everybody who waits is connected and waits once. -/
 theorem at_most_one_owner_and_alive {s : State} (h : Reachable s) (n : Name) :
-    (∀ a b, s.owner n = some a → s.owner n = some b → a = b) ∧
     (∀ o, s.owner n = some o → s.connected o = true ∧ o ∉ (s.queue n).tail) ∧
     (∀ c, c ∈ s.queue n → s.connected c = true ∧ (s.queue n).count c = 1) := by
   have hI := inv_of_reachable h
-  refine ⟨?_, ?_, ?_⟩
-  · intro a b ha hb; rw [ha] at hb; exact Option.some.inj hb
+  refine ⟨?_, ?_⟩
   · intro o ho
     unfold State.owner at ho
     cases hq : s.queue n with
@@ -58,6 +57,11 @@ theorem at_most_one_owner_and_alive {s : State} (h : Reachable s) (n : Name) :
 theorem step_never_raises {s : State} (h : Reachable s) (op : Op)
     (hc : ∀ c, op.caller = some c → s.connected c = true) :
     ∃ s' evs, step s op = .ok (s', evs) := step_ok (inv_of_reachable h) op hc
+
+/-- Every history in which each operation is sent by a connection that is connected at that
+moment runs to its end (so the history-level theorems below are not vacuous for it). -/
+theorem wellformed_history_runs (ops : List Op) (hw : WellFormed State.init ops) :
+    ∃ s evss, run State.init ops = .ok (s, evss) := run_ok_of_wellFormed ops inv_init hw
 
 /-! ## 2. RequestName -/
 
@@ -268,6 +272,7 @@ end Txdbus.Bus
 #print axioms Txdbus.Bus.inv_step
 #print axioms Txdbus.Bus.at_most_one_owner_and_alive
 #print axioms Txdbus.Bus.step_never_raises
+#print axioms Txdbus.Bus.wellformed_history_runs
 #print axioms Txdbus.Bus.request_semantics
 #print axioms Txdbus.Bus.reply_states_relation
 #print axioms Txdbus.Bus.release_semantics
